@@ -61,12 +61,20 @@ func exerciseMessage(m *handler.Message) error {
 type FrameCase struct {
 	Frame stats.Hex `json:"frame"`
 	Class string    `json:"class,omitempty"`
+	// ExtraLevel != 0: besides the Debug and Info levels the bundled programs use, the frame is also decoded
+	// and displayed by a handler created with this log level (Warn, Error or a custom value).
+	ExtraLevel int `json:"extra_log_level,omitempty"`
 }
 
 func checkFrame(c FrameCase, o *stats.Obs) error {
 	frame := []byte(c.Frame)
 	var inner error
-	for _, level := range []slog.Level{slog.LevelDebug, slog.LevelInfo} {
+	levels := []slog.Level{slog.LevelDebug, slog.LevelInfo}
+	if c.ExtraLevel != 0 {
+		levels = append(levels, slog.Level(c.ExtraLevel))
+		o.Class("extra-log-level")
+	}
+	for _, level := range levels {
 		lv := level
 		p, timedOut := drive.Guard(watchdog, func() {
 			h := drive.NewHandler(lv)
@@ -258,7 +266,15 @@ func genFrame(t *rapid.T) FrameCase {
 	}
 }
 
-var propFrame = stats.Prop(R, "frame", genFrame, checkFrame)
+func genFrameLv(t *rapid.T) FrameCase {
+	c := genFrame(t)
+	if rapid.IntRange(0, 3).Draw(t, "extraLevel") == 1 {
+		c.ExtraLevel = rapid.SampledFrom([]int{int(slog.LevelWarn), int(slog.LevelError), -8, 2}).Draw(t, "level")
+	}
+	return c
+}
+
+var propFrame = stats.Prop(R, "frame", genFrameLv, checkFrame)
 
 func TestFrame(t *testing.T) { rapid.Check(t, propFrame) }
 
